@@ -14,8 +14,13 @@ import (
 	"google.golang.org/protobuf/reflect/protoreflect"
 	"google.golang.org/protobuf/reflect/protoregistry"
 	"google.golang.org/protobuf/types/descriptorpb"
-	"google.golang.org/protobuf/types/pluginpb"
+	_ "google.golang.org/protobuf/types/known/anypb"
+	_ "google.golang.org/protobuf/types/known/durationpb"
+	_ "google.golang.org/protobuf/types/known/emptypb"
+	_ "google.golang.org/protobuf/types/known/structpb"
 	_ "google.golang.org/protobuf/types/known/timestamppb"
+	_ "google.golang.org/protobuf/types/known/wrapperspb"
+	"google.golang.org/protobuf/types/pluginpb"
 )
 
 const (
@@ -46,6 +51,10 @@ func wellKnownFiles() []*descriptorpb.FileDescriptorProto {
 		get(pathDuration, pathDuration),
 		get(pathFieldMask, pathFieldMask),
 		get(pathTimestamp, pathTimestamp),
+		get("google/protobuf/any.proto", "google/protobuf/any.proto"),
+		get("google/protobuf/empty.proto", "google/protobuf/empty.proto"),
+		get("google/protobuf/struct.proto", "google/protobuf/struct.proto"),
+		get("google/protobuf/wrappers.proto", "google/protobuf/wrappers.proto"),
 		get(pathValidate, pathValidate),
 		get("proto/"+pathAnnotations, pathAnnotations),
 		get("proto/"+pathHeaders, pathHeaders),
@@ -90,23 +99,23 @@ func mapEntryName(field string) string {
 }
 
 var kindType = map[Kind]descriptorpb.FieldDescriptorProto_Type{
-	KDouble:   descriptorpb.FieldDescriptorProto_TYPE_DOUBLE,
-	KFloat:    descriptorpb.FieldDescriptorProto_TYPE_FLOAT,
-	KInt32:    descriptorpb.FieldDescriptorProto_TYPE_INT32,
-	KInt64:    descriptorpb.FieldDescriptorProto_TYPE_INT64,
-	KUint32:   descriptorpb.FieldDescriptorProto_TYPE_UINT32,
-	KUint64:   descriptorpb.FieldDescriptorProto_TYPE_UINT64,
-	KSint32:   descriptorpb.FieldDescriptorProto_TYPE_SINT32,
-	KSint64:   descriptorpb.FieldDescriptorProto_TYPE_SINT64,
-	KFixed32:  descriptorpb.FieldDescriptorProto_TYPE_FIXED32,
-	KFixed64:  descriptorpb.FieldDescriptorProto_TYPE_FIXED64,
-	KSfixed32: descriptorpb.FieldDescriptorProto_TYPE_SFIXED32,
-	KSfixed64: descriptorpb.FieldDescriptorProto_TYPE_SFIXED64,
-	KBool:     descriptorpb.FieldDescriptorProto_TYPE_BOOL,
-	KString:   descriptorpb.FieldDescriptorProto_TYPE_STRING,
-	KBytes:    descriptorpb.FieldDescriptorProto_TYPE_BYTES,
-	KEnum:     descriptorpb.FieldDescriptorProto_TYPE_ENUM,
-	KMessage:  descriptorpb.FieldDescriptorProto_TYPE_MESSAGE,
+	KDouble:    descriptorpb.FieldDescriptorProto_TYPE_DOUBLE,
+	KFloat:     descriptorpb.FieldDescriptorProto_TYPE_FLOAT,
+	KInt32:     descriptorpb.FieldDescriptorProto_TYPE_INT32,
+	KInt64:     descriptorpb.FieldDescriptorProto_TYPE_INT64,
+	KUint32:    descriptorpb.FieldDescriptorProto_TYPE_UINT32,
+	KUint64:    descriptorpb.FieldDescriptorProto_TYPE_UINT64,
+	KSint32:    descriptorpb.FieldDescriptorProto_TYPE_SINT32,
+	KSint64:    descriptorpb.FieldDescriptorProto_TYPE_SINT64,
+	KFixed32:   descriptorpb.FieldDescriptorProto_TYPE_FIXED32,
+	KFixed64:   descriptorpb.FieldDescriptorProto_TYPE_FIXED64,
+	KSfixed32:  descriptorpb.FieldDescriptorProto_TYPE_SFIXED32,
+	KSfixed64:  descriptorpb.FieldDescriptorProto_TYPE_SFIXED64,
+	KBool:      descriptorpb.FieldDescriptorProto_TYPE_BOOL,
+	KString:    descriptorpb.FieldDescriptorProto_TYPE_STRING,
+	KBytes:     descriptorpb.FieldDescriptorProto_TYPE_BYTES,
+	KEnum:      descriptorpb.FieldDescriptorProto_TYPE_ENUM,
+	KMessage:   descriptorpb.FieldDescriptorProto_TYPE_MESSAGE,
 	KTimestamp: descriptorpb.FieldDescriptorProto_TYPE_MESSAGE,
 }
 
@@ -238,7 +247,22 @@ func (l *lowerer) lowerEnum(e *Enum) *descriptorpb.EnumDescriptorProto {
 	return ed
 }
 
+// wktFile maps well-known type names to their defining file.
+var wktFile = map[string]string{
+	"google.protobuf.Timestamp": pathTimestamp, "google.protobuf.Duration": pathDuration, "google.protobuf.FieldMask": pathFieldMask,
+	"google.protobuf.Any": "google/protobuf/any.proto", "google.protobuf.Empty": "google/protobuf/empty.proto",
+	"google.protobuf.Struct": "google/protobuf/struct.proto", "google.protobuf.Value": "google/protobuf/struct.proto",
+	"google.protobuf.ListValue":   "google/protobuf/struct.proto",
+	"google.protobuf.StringValue": "google/protobuf/wrappers.proto", "google.protobuf.Int64Value": "google/protobuf/wrappers.proto",
+	"google.protobuf.BoolValue": "google/protobuf/wrappers.proto", "google.protobuf.DoubleValue": "google/protobuf/wrappers.proto",
+	"google.protobuf.BytesValue": "google/protobuf/wrappers.proto", "google.protobuf.UInt32Value": "google/protobuf/wrappers.proto",
+}
+
 func (l *lowerer) useType(fq string, f *File) {
+	if wf, ok := wktFile[fq]; ok {
+		l.deps[wf] = true
+		return
+	}
 	if tf, ok := l.typeFile[fq]; ok && tf != f.Name {
 		l.deps[tf] = true
 	}
@@ -472,8 +496,8 @@ func lowerHeaders(hs []*Header) []*sebufhttp.Header {
 
 // ---- buf.validate lowering ---------------------------------------------------
 
-func parseI64(s string) (int64, error)  { return strconv.ParseInt(s, 10, 64) }
-func parseU64(s string) (uint64, error) { return strconv.ParseUint(s, 10, 64) }
+func parseI64(s string) (int64, error)   { return strconv.ParseInt(s, 10, 64) }
+func parseU64(s string) (uint64, error)  { return strconv.ParseUint(s, 10, 64) }
 func parseF64(s string) (float64, error) { return strconv.ParseFloat(s, 64) }
 
 func lowerRules(fl *Field, r *Rules) (*validate.FieldRules, error) {
